@@ -15,7 +15,7 @@ CHECKS = {
     "C02": {
         "text": "The bulk walk shares the GETNEXT walk's loop (delegation decided); in addition a container-kind analysis shows that every fetcher returns a faithful prefix of the response bindings (no OID-keyed container that collapses duplicates), the GETBULK size bound is decided against the RFC 3416 formula by simulating the operation's CFG on an integer grid, and request counters / response split / bulk size agree.",
         "note": "Trusted: ast, the analyser, RFC 3416 4.2.3 bound. Relies on C01's rules for the shared loop. Not decided: agreement of both walks on every database and agent truncation policy as a whole.",
-        "technique": "container-kind (multiplicity) dataflow + CFG simulation on an integer grid against the RFC formula (static)",
+        "technique": "container-kind (multiplicity) dataflow + CFG simulation on an integer grid against the RFC formula + abstract evaluation of small pure functions over enumerated finite / boundary domains with symbolic values (engine/minieval.py; fetcher / operation contracts in rules/fetcheval.py) (static)",
     },
     "C03": {
         "text": "Every function that can be the walk's fetcher is shown to compare each returned OID with its predecessor position by position, strictly (three orderings), before returning; every fetch in the loop is covered by a handler that ends the walk normally in lenient mode and re-raises otherwise; the loop variable is renewed on every path. Termination and no-re-request follow from these premises (argument recorded in the evidence).",
@@ -25,7 +25,7 @@ CHECKS = {
     "C04": {
         "text": "Request construction (PDU class, one binding per OID in caller order, NULL / typed SET value after refusal), count checks decided on the fewer/equal/more orderings by CFG simulation, faithful positional extraction, established length before constant subscripts, and typed missing-object detection are decided for get/getnext/set and their multi variants. One genuine defect is recorded as known finding (public multigetnext truncation).",
         "note": "Trusted: ast, the analyser. GETBULK bound is C02-R2, ids C07, error-status C08. Not decided: equality of returned values with the agent database.",
-        "technique": "CFG simulation over count orderings + container-kind dataflow + callee length summaries + kind typing of isinstance operands (static)",
+        "technique": "CFG simulation over count orderings + container-kind dataflow + callee length summaries + kind typing of isinstance operands + abstract evaluation of small pure functions over enumerated finite / boundary domains with symbolic values (engine/minieval.py; fetcher / operation contracts in rules/fetcheval.py) (static)",
     },
     "C05": {
         "text": "The shape (kinds, order, arity, provenance of every leaf) of every encoder reachable from the sender seam - PDU body, GETBULK framing, community wrapper, SNMPv3 message / header / flags / scoped PDU / USM parameters - is extracted from the source and compared with tables transcribed from RFC 1157/1901/3416/3412/3414; the flag octet is evaluated for all 8 combinations.",
@@ -81,7 +81,7 @@ CHECKS = {
     "C15": {
         "text": "An abstract interpreter over result kinds (raw kinds taken from the raw client's return annotations) decides for every public wrapper method that nothing returned or yielded contains an x690 value, ObjectIdentifier or VarBind - dictionary keys included; conversions are shown to be element-wise, unfiltered and order preserving; every SNMP value type wraps a builtin.",
         "note": "Trusted: ast, the analyser, the raw client's return annotations (cross-checked against its code by C01-C04/C16). BulkResult is accepted as documented container. Not decided: equality of values (follows from element-wise pythonize of the same raw result).",
-        "technique": "abstract interpretation over a kind lattice (provenance of result leaves) (static)",
+        "technique": "abstract interpretation over a kind lattice (provenance of result leaves) + abstract evaluation of small pure functions over enumerated finite / boundary domains with symbolic values (engine/minieval.py; fetcher / operation contracts in rules/fetcheval.py) (static)",
     },
     "C16": {
         "text": "Offset agreement of the two table variants (len(oid) vs len(oid)+1, evaluated symbolically), a symbolic slice algebra showing column = arc[base] and row index = all remaining arcs (complete multi-component index, stored under '0'), get-or-create row accumulation, and complete in-order consumption of the single-root walk.",
@@ -107,7 +107,7 @@ CHECKS = {
     "C20": {
         "text": "Every while loop of the resolved program (x690 included) is classified by a progress idiom; the TLV walker's cursor advance is derived by a relative lower-bound analysis of x690's get_value_slice / decode_length on every path; taint from decoded values to range()/repetition/allocation sinks (zero expected, positive fixture); decode paths write no shared state; no eager recursion on the decode path. One genuine defect (indefinite-length branch of x690) is recorded as known finding.",
         "note": "Trusted: ast, the analyser, CPython facts (len >= 0, unsigned from_bytes >= 0, find >= -1). Not decided: time and memory as a concrete multiple of the datagram size.",
-        "technique": "relative lower-bound abstract interpretation + loop progress-idiom classification + taint + effect analysis (static)",
+        "technique": "relative lower-bound abstract interpretation + loop progress-idiom classification + taint + effect analysis + abstract evaluation of small pure functions over enumerated finite / boundary domains with symbolic values (engine/minieval.py; fetcher / operation contracts in rules/fetcheval.py) (static)",
     },
 }
 
